@@ -106,6 +106,42 @@ class World(object):
                 return self._root_place(body, a, depth + 1)
         return pl
 
+    def through_guard(self, body, op):
+        """Lock classes (class, mode) of guard objects the receiver chain of `op` passes through: the
+        access is protected by those locks for as long as the guard exists."""
+        from .locks import _classes_of_type
+        out = set()
+        pl = place_of(op)
+        seen = 0
+        while pl is not None and seen < 20:
+            seen += 1
+            # types along the projection
+            tys = [body.locals[pl["l"]]]
+            for e in pl["p"]:
+                if isinstance(e, dict) and "ty" in e:
+                    tys.append(e["ty"])
+            for t in tys:
+                out |= set(_classes_of_type(self, self.prog.strip_refs(t)))
+            if pl["p"] and any(isinstance(e, dict) and "f" in e for e in pl["p"]):
+                # continue with the base local
+                pl = {"l": pl["l"], "p": []}
+                continue
+            defs = body.assignments().get(pl["l"], [])
+            if len(defs) != 1:
+                break
+            bb, j, rv = defs[0]
+            nxt = None
+            if j == "term":
+                if rv["args"] and (term_path(rv) or "").split("::")[-1] in (
+                        "deref", "deref_mut", "as_ref", "as_mut", "borrow", "borrow_mut", "unwrap"):
+                    nxt = place_of(rv["args"][0])
+            elif rv["k"] in ("ref", "rawptr"):
+                nxt = rv["place"]
+            elif rv["k"] == "use":
+                nxt = place_of(rv["op"])
+            pl = nxt
+        return out
+
     def recv_field(self, body, op):
         pl = self.root_place(body, op)
         if pl is None:
